@@ -160,20 +160,28 @@ _ss("subgrid_rejects", "ss_subgrid_rejects", ["SharedSubgrid::subgrid"], "subgri
 _ss("split_rejects", "ss_split_rejects", ["SharedSubgrid::split_horizontal", "SharedSubgrid::split_vertical"], "split_* return only for at <= width/height", _gk)
 
 # ---- AlignedGrid: owner of tracked memory (C13) and index arithmetic (C02) ----
-_AG_B = "bounded:width, height <= 3 (the buffer is really allocated); complete over the budget (all of usize) and sample values"
+def _ag_b(d):
+    return ("bounded:" + ("width, height <= 3 symbolic" if d == "sym" else "CONCRETE dimensions " + d + " (a Vec of symbolic length exhausts CBMC's memory in try_clone / the accessors)")
+            + "; the buffer is really allocated; complete over the budget (all of usize), coordinates and sample values")
 _AG_C = ("bytes = (width*height + 31/size_of::<S>()) * size_of::<S>() (= the Vec's capacity in bytes); Ok => exactly bytes taken from the tracker by one handle held by the grid, "
          "given back exactly when the grid is dropped; Err(e) => budget unchanged, budget < bytes, e.bytes() == bytes; budget observed through shrink_limit probes (public API)")
-for _t in ["i16", "i32"]:
-    K("gr.ag.with_tracker_" + _t, ["C13", "C01"], "jxl-grid", GR_LIB, GR_LIBM, "ag_with_tracker_" + _t, _AG_B,
-      ["AlignedGrid::with_alloc_tracker", "AllocTracker::alloc", "AllocHandle::drop"], _AG_C + " [S = %s]" % _t, attrs=[])
-    K("gr.ag.try_clone_" + _t, ["C13", "C01"], "jxl-grid", GR_LIB, GR_LIBM, "ag_try_clone_" + _t, _AG_B,
+for _t, _d, _tier in [("i16", "2x3", "quick"), ("i32", "3x1", "quick"), ("i32", "0x2", "quick"), ("i16", "sym", "thorough"), ("i32", "sym", "thorough")]:
+    K("gr.ag.with_tracker_%s_%s" % (_t, _d), ["C13", "C01"], "jxl-grid", GR_LIB, GR_LIBM, "ag_with_tracker_%s_%s" % (_t, _d), _ag_b(_d),
+      ["AlignedGrid::with_alloc_tracker", "AllocTracker::alloc", "AllocHandle::drop"], _AG_C + " [S = %s]" % _t, tier=_tier, timeout=300 if _tier == "quick" else 1200)
+for _t, _d in [("i16", "2x2"), ("i32", "3x1"), ("i32", "0x2")]:
+    K("gr.ag.try_clone_%s_%s" % (_t, _d), ["C13", "C01"], "jxl-grid", GR_LIB, GR_LIBM, "ag_try_clone_%s_%s" % (_t, _d), _ag_b(_d),
       ["AlignedGrid::try_clone", "AlignedGrid::empty_aligned", "AlignedGrid::clone_untracked", "AlignedGrid::tracker", "AllocHandle::tracker"],
       "clone of a tracked grid: " + _AG_C + "; same samples; clone_untracked records nothing; a failed clone leaves the source's accounting intact [S = %s]" % _t)
-    K("gr.ag.accessors_" + _t, ["C02"], "jxl-grid", GR_LIB, GR_LIBM, "ag_accessors_" + _t, "bounded:width, height <= 3; complete over coordinates (2-bit probes) and sample values",
+for _t, _d in [("i16", "3x2"), ("i32", "2x2"), ("i32", "0x2")]:
+    K("gr.ag.accessors_%s_%s" % (_t, _d), ["C02"], "jxl-grid", GR_LIB, GR_LIBM, "ag_accessors_%s_%s" % (_t, _d), _ag_b(_d),
       ["AlignedGrid::try_get_ref", "AlignedGrid::try_get_mut", "AlignedGrid::get", "AlignedGrid::get_ref", "AlignedGrid::get_mut", "AlignedGrid::try_get_row",
        "AlignedGrid::try_get_row_mut", "AlignedGrid::get_row", "AlignedGrid::get_row_mut", "AlignedGrid::buf", "AlignedGrid::buf_mut", "AlignedGrid::as_subgrid", "AlignedGrid::as_subgrid_mut",
        "MutableSubgrid::from(&mut AlignedGrid)", "SharedSubgrid::from(&AlignedGrid)"],
       "Some iff inside; sample (x, y) is buf()[y*width + x] (offset-adjusted, 32-byte aligned origin); rows are buf()[y*width..][..width]; as_subgrid(_mut) view the same samples with stride == width "
       "(as_subgrid only for non-zero dimensions: SharedSubgrid::from_buf refuses them)")
-K("gr.ag.without_tracker", ["C13", "C01"], "jxl-grid", GR_LIB, GR_LIBM, "ag_without_tracker_i16", _AG_B,
-  ["AlignedGrid::with_alloc_tracker", "AlignedGrid::try_clone", "AlignedGrid::empty"], "no tracker: never refused, no handle; clones of untracked grids are untracked and cannot fail")
+K("gr.ag.clone_untracked", ["C13", "C01"], "jxl-grid", GR_LIB, GR_LIBM, "ag_clone_untracked_i16_2x2", _ag_b("2x2"),
+  ["AlignedGrid::clone_untracked", "AlignedGrid::empty_aligned"], "clone_untracked of a tracked grid: no handle, budget untouched, same samples, invariant kept")
+for _d, _tier in [("2x2", "quick"), ("sym", "thorough")]:
+    K("gr.ag.without_tracker_" + _d, ["C13", "C01"], "jxl-grid", GR_LIB, GR_LIBM, "ag_without_tracker_i16_" + _d, _ag_b(_d),
+      ["AlignedGrid::with_alloc_tracker", "AlignedGrid::try_clone", "AlignedGrid::empty"], "no tracker: never refused, no handle; clones of untracked grids are untracked and cannot fail",
+      tier=_tier, timeout=300 if _tier == "quick" else 1200)
